@@ -73,10 +73,11 @@ func zzUnchanged(a, b zzChainState) bool {
 }
 
 // Inv: the invariant that makes C35 inductive.
-//  I1 an application is pending only for an unregistered id
-//  I2 an update request is pending only for a registered id and was filed by the registered owner
-//  I3 a quit request is pending only for a registered id
-//  I4 records are stored under their own chain id
+//
+//	I1 an application is pending only for an unregistered id
+//	I2 an update request is pending only for a registered id and was filed by the registered owner
+//	I3 a quit request is pending only for a registered id
+//	I4 records are stored under their own chain id
 func zzInv(s zzChainState, id uint64) bool {
 	if s.A != nil && (s.R != nil || s.A.ChainId != id) {
 		return false
